@@ -78,6 +78,7 @@ def run(ctx, chk):
     chk.rule("C07.R2", "SI/DI step by +/- element size mod 2^16; unused pointers unchanged", floor=20)
     chk.rule("C07.R3", "word elements occupy cells p and p+1 in both directions", floor=10)
     chk.rule("C07.R4", "effects: who may write memory / AL,AX / flags", floor=20)
+    chk.rule("C07.R9", "CMPS and SCAS set CF, AF, OF, SF, ZF as the corresponding CMP: the manual's predicates over the two elements", floor=4)
     chk.rule("C07.R5", "CMPS: source - destination; SCAS: accumulator - destination", floor=4)
     chk.rule("C07.R6", "REP protocol: nothing executes with CX=0; CX-1 and REPEAT otherwise; ZF test for REPE/REPNE", floor=9)
     chk.rule("C07.R7", "driver re-issues the same line on REPEAT", floor=1)
@@ -259,6 +260,8 @@ def run(ctx, chk):
                                           f"{fn['name']} computes destination-element {'-' if 'Sub' in op else '<'} {'source' if m == 'cmps' else 'accumulator'}; "
                                           f"the 8086 computes {'source' if m == 'cmps' else 'accumulator'} - destination", f"{where.rsplit(':', 1)[0]}:{e.line}")
             report_aborts(chk, "C07.R8", unit, s.I.events, where)
+            if sp["flags"] and df == 0:
+                compare_flag_rule(ctx, chk, unit0, m, fn, s, size, where)
 
     # --- R6 REP protocol
     rep_rule(ctx, chk)
@@ -392,3 +395,76 @@ def rep_rule(ctx, chk):
                     chk.violation("C07.R6", label, "cx-decrement", f"`{prefix}` with CX>=1: CX becomes {cxv.aff.pretty()}, expected CX-1", where, str(env))
                 else:
                     chk.undecided_("C07.R6", u + ":cx", "no separating valuation")
+
+
+def compare_flag_rule(ctx, chk, unit, m, fn, s, size, where):
+    """C07.R9.  "CMPS and SCAS set the flags of the corresponding CMP."  As C01.R12: the booleans the helper hands to its flag
+    routine carry the comparison that made them, with closed forms over the memory cells and AX; which boolean sets which
+    flag is found by running the routine.  The two operands are taken from the helper's own borrow test (`x < y`): x must
+    be built from source cells only (DS:SI lanes, or AX for SCAS) and y from destination cells only (ES:DI lanes) -- that
+    these are the right cells and lanes is R1/R3, that x is the minuend is R5.  CF, AF, OF, SF, ZF are then compared with
+    the SUB predicates of the manual over x and y."""
+    from domains import Lin
+    from rules_c01 import bool_flag_map, _norm_pred, _negate, _compare_preds, _pred_show, _eval_pred
+    w = 8 * size
+    M_, H = 1 << w, 1 << (w - 1)
+    ranges = s.I.atom_ranges()
+    decided = {}
+    for e in s.I.events:
+        if e.kind != "call" or not getattr(e, "fref", None) or not e.fref.get("local"):
+            continue
+        for bit, (path, pol) in bool_flag_map(ctx, e).items():
+            v = e.args[path[0]] if len(path) == 1 else e.args[path[0]].fields[path[1]]
+            decided[bit] = (v, pol)
+    if FBIT["CF"] not in decided:
+        chk.undecided_("C07.R9", unit, "no boolean handed to a flag routine decides CF")
+        return
+    cfv, pol = decided[FBIT["CF"]]
+    pr = getattr(cfv, "pred", None)
+    a = b = None
+    if pr is not None and ((pr[0] == "cmp" and pr[1] in ("Lt", "Gt")) or (pr[0] == "ovf" and pr[1] == "Sub")) and pr[2].kind == "int" and pr[3].kind == "int" \
+            and pr[2].aff is not None and pr[3].aff is not None and pol == 1:
+        x, y = (pr[2].aff, pr[3].aff) if pr[1] in ("Lt", "Sub") else (pr[3].aff, pr[2].aff)
+
+        def is_src(at):
+            return (at.startswith("mem[") and "si" in at and "di" not in at) if m == "cmps" else at == "ax"
+
+        def is_dst(at):
+            return at.startswith("mem[") and "di" in at and "si" not in at
+        if x.atoms() and y.atoms() and all(is_src(t) for t in x.atoms()) and all(is_dst(t) for t in y.atoms()):
+            a, b = x.simplify(ranges), y.simplify(ranges)
+    if a is None:
+        chk.undecided_("C07.R9", unit, "the borrow test of the helper is not `source element < destination element` in closed form")
+        return
+    val = a.sub(b).mod(M_)
+    cf = ("pos", b.sub(a))
+    inner = ("pos", b.mod(H).sub(a.mod(H)).simplify(ranges))
+    spec = {"CF": cf, "AF": ("pos", b.mod(16).sub(a.mod(16)).simplify(ranges)), "OF": ("xor",) + tuple(sorted((inner, cf), key=repr)),
+            "SF": ("pos", val.sub(Lin(H - 1)).simplify(ranges)), "ZF": ("zero", val.simplify(ranges))}
+    for f in ("CF", "AF", "OF", "SF", "ZF"):
+        u = f"{unit}:{f}"
+        if FBIT[f] not in decided:
+            chk.undecided_("C07.R9", u, "no boolean handed to a flag routine decides this flag")
+            continue
+        v, pol = decided[FBIT[f]]
+        have = _norm_pred(v, ranges)
+        if have is not None and pol == 0:
+            have = _negate(have)
+        if have is None:
+            chk.undecided_("C07.R9", u, "the flag's boolean has no closed form")
+            continue
+        r = _compare_preds(have, spec[f], ranges)
+        if r == "equal":
+            chk.ok("C07.R9", u, _pred_show(have))
+        elif r == "unknown":
+            chk.undecided_("C07.R9", u, f"{_pred_show(have)} not comparable with {_pred_show(spec[f])}")
+        else:
+            env = r[1]
+            text = (f"{f} is computed as [{_pred_show(have)}], CMP defines [{_pred_show(spec[f])}]; they differ for " +
+                    ", ".join(f"{k}={v_}" for k, v_ in sorted(env.items())) + f": {int(_eval_pred(have, env))} instead of {int(_eval_pred(spec[f], env))}")
+            # readable names for the cells: src0/src1 = lanes of the element at DS:SI, dst0/dst1 at ES:DI
+            cells = sorted((t for t in (a.atoms() | b.atoms()) if t.startswith("mem[")), key=lambda t: (("di" in t), len(t), t))
+            for t in sorted(cells, key=len, reverse=True):
+                lane = [c for c in cells if ("di" in c) == ("di" in t)].index(t)
+                text = text.replace(t, ("dst" if "di" in t else "src") + str(lane))
+            chk.violation("C07.R9", unit, f"{f}-formula", f"{fn['name']}: {text}", where, witness=text)
